@@ -5,6 +5,7 @@ import (
 	"database/sql"
 	"database/sql/driver"
 	"encoding/json"
+	"errors"
 	"flag"
 	"fmt"
 	"runtime"
@@ -870,6 +871,13 @@ func runL5Conc(r *rng.R, threads, perThread int) (obs *l5ConcObs) {
 					ctx, cancelP = context.WithCancel(ctx)
 					defer cancelP()
 					dbs[di].state.CancelNext("prepare", cancelP)
+				}
+				if !stress && tr.Chance(1, 10) {
+					// an ordinary database error (a constraint violation, say) answers the next
+					// execution on this DB - this call's or another goroutine's: the failure is
+					// that call's alone, every other execution still finds its statement open
+					dbs[di].state.FailNext("exec", errors.New("constraint failed"))
+					dbs[di].state.FailNext("query", errors.New("constraint failed"))
 				}
 				q := dbs[di].db.Query(ctx, s, l5ArgsFor(bulk[s], shape)...)
 				if !stress && tr.Chance(1, 4) {
